@@ -98,7 +98,7 @@ func genInventory(o *out, repo string) {
 						nondet = append(nondet, leanStr(fn+": go "+render(x.Call)))
 					case *ast.CallExpr:
 						f := render(x.Fun)
-						if strings.HasPrefix(f, "time.") || strings.HasPrefix(f, "rand.") || f == "os.Getpid" {
+						if isNondetSource(f) {
 							nondet = append(nondet, leanStr(fn+": "+f))
 						}
 					case *ast.RangeStmt:
@@ -150,4 +150,16 @@ func genInventory(o *out, repo string) {
 	o.p("def rangeMapSites : List String := %s", list(ranges))
 	o.p("def nondetSites : List String := %s", list(nondet))
 	_ = fmt.Sprint
+}
+
+// isNondetSource: calls whose result can differ between two runs of the same program on the same input
+// (wall clock, random numbers, the Go runtime's own state — heap size, goroutines, GC —, process and host identity,
+// the environment, addresses, atomics and locks)
+func isNondetSource(f string) bool {
+	for _, p := range []string{"time.", "rand.", "runtime.", "debug.", "unsafe.", "atomic.", "sync.", "syscall.", "signal.", "reflect.", "maphash.", "os.Getpid", "os.Getppid", "os.Getenv", "os.LookupEnv", "os.Environ", "os.Hostname", "os.Getwd", "os.Getuid", "os.Executable", "os.TempDir", "os.UserHomeDir"} {
+		if strings.HasPrefix(f, p) {
+			return true
+		}
+	}
+	return false
 }
